@@ -324,6 +324,7 @@ struct Gen {
     if (Has(F_REGEN) && C(3) == 0) MakeRegen();
     if (Has(F_DYNDEP)) MakeDyndeps();
     if (Has(F_VALIDATION)) MakeValidations();
+    if (gp.cycles && C(10) < 7) MakeCycle();
     if (Has(F_DEFAULT) && C(3) == 0) {
       int nd = 1 + (int)C(2);
       for (int i = 0; i < nd; i++) {
@@ -483,6 +484,49 @@ struct Gen {
       if (dd.producer < 0) sc.sources.push_back(dd.path);
       sc.dyndeps.push_back(dd);
     }
+  }
+
+  // C17: b depends on a; make a depend on one of b's outputs.
+  void MakeCycle() {
+    std::vector<std::pair<int, int>> pairs;
+    for (const Stmt& b : sc.stmts) for (const Stmt& a : sc.stmts)
+      if (!a.regen && !b.regen && !a.phony && a.id <= b.id && (a.id == b.id || DependsOn(b.id, a.id))) pairs.emplace_back(a.id, b.id);
+    if (pairs.empty()) return;
+    auto pr = pairs[C((uint32_t)pairs.size())];
+    Stmt& a = sc.stmts[pr.first];
+    const Stmt& b = sc.stmts[pr.second];
+    std::vector<std::string> bouts = b.AllOuts();
+    std::string back = bouts[C((uint32_t)bouts.size())];
+    if (sc.FindDyndep(back)) return;
+    uint32_t kind = C(4);
+    if ((kind == 1 || kind == 2) && !a.dyndep.empty()) kind = 0;
+    if (kind == 3 && a.deps_kind == 0) kind = 0;
+    if (kind == 0) {
+      uint32_t k = C(3);
+      std::vector<std::string>& v = k == 0 ? a.ins : k == 1 ? a.imp_ins : a.oo_ins;
+      v.push_back(back);
+    } else if (kind == 1 || kind == 2) {
+      DyndepFile dd;
+      dd.path = "ddc";
+      dd.producer = -1;
+      if (kind == 2) {
+        std::vector<int> prods;
+        for (const Stmt& q : sc.stmts) if (!q.phony && !q.regen && q.id < a.id && q.deps_kind < 2) prods.push_back(q.id);
+        if (prods.empty()) kind = 1; else { dd.producer = prods[C((uint32_t)prods.size())]; sc.stmts[dd.producer].outs.push_back(dd.path); }
+      }
+      a.dyndep = dd.path;
+      if (C(2)) a.imp_ins.push_back(dd.path); else a.oo_ins.push_back(dd.path);
+      DyndepEntry e;
+      e.stmt = a.id;
+      e.imp_ins.push_back(back);
+      dd.entries.push_back(e);
+      if (dd.producer < 0) sc.sources.push_back(dd.path);
+      sc.dyndeps.push_back(dd);
+    } else {
+      if (std::find(a.hidden.begin(), a.hidden.end(), back) == a.hidden.end()) a.hidden.push_back(back);
+    }
+    sc.cycle_kind = (int)kind;
+    sc.cycle_note = "cycle: statement " + std::to_string(a.id) + " now needs '" + back + "' of statement " + std::to_string(b.id) + " (kind " + std::to_string(kind) + ")";
   }
 
   void MakeValidations() {
